@@ -12,7 +12,7 @@ import sympy as sp
 import z3
 
 from pyvc import loader, symx
-from pyvc.core import Refuted
+from pyvc.core import Refuted, real_self
 from pyvc.npx import X, exact, val, vals, xarr
 from pyvc.symx import AV, Explorer, GhostList, zv
 
@@ -320,8 +320,7 @@ def _stepping(chk):
     def mk_self(ctx, policy=None):
         smin, smax = ctx.real("step_min"), ctx.real("step_max")
         ctx.assume(z3.And(zv(smin) > 0, zv(smin) <= zv(smax)), silent=True)
-        self = _Obj(_step_min=smin, _step_max=smax, _shrink_policy=policy)
-        self._clamp_step = types.MethodType(Base._clamp_step, self)
+        self = real_self(Base, _step_min=smin, _step_max=smax, _shrink_policy=policy)
         return self, smin, smax
 
     def absz(t):
